@@ -2,7 +2,9 @@
 
 DUT: luna.gateware.usb.usb3.link.transmitter.PacketTransmitter, stand-alone (its RawPacketTransmitter and
 LinkCommandDetector are the real sub-blocks), inside a two-line wrapper that defines the `ss` clock domain so that the
-harness can pulse the domain's synchronous reset.  Driven at `sink` (the received word stream carrying the partner's link
+harness can pulse the domain's synchronous reset.  `buffer_count` is 4 (half of the cases), 2 or 8 per case (powers of two: the
+pointers of the design wrap at 2**n; 3, 5, ... are not generated); credits, LCRD letters (modulo the count) and the number of
+unacknowledged headers are judged against the configured count.  Driven at `sink` (the received word stream carrying the partner's link
 commands), `queue` (protocol-layer HeaderQueue), `data_sink` (payload for data headers), `source.ready`, `enable` and
 `lrty_pending` (in the real link layer the header receiver raises it the cycle after `retry_required` and drops it once it
 has sent LRTY; the harness does the same with a random LRTY latency).
@@ -14,7 +16,8 @@ epochs of 20-50 headers each (about 20 k cycles and 550 headers per case).
 Workload of a session:
   * protocol layer: uniquely tagged headers (index mixed into DW0/1/2), 0/25/50 % data headers with 1-6 word payloads or
     ZLP, bursts (valid again in the cycle after an acceptance) and gaps, junk in the link-layer fields of the queued
-    header; in 30 % of the sessions the offers are aimed at the cycle in which an LBAD / LGOOD is decoded;
+    header (sequence number, CRCs; for half of the headers also delayed / deferred / hub depth / reserved: a retransmission
+    needs DL whatever the queued `delayed` bit says); in 30 % of the sessions the offers are aimed at the cycle in which an LBAD / LGOOD is decoded;
   * reactive link partner: after enable it advertises LGOOD_n (n random, often 7) and LCRD A..D (all at once, or only a
     few at first); it "receives" every header the DUT puts on the wire, answers LGOOD_seq and later LCRD_x with delays
     drawn from the session profile (fast / slow acknowledgement, credit starvation), or declares the header corrupted and
@@ -47,8 +50,9 @@ Oracle (reference model `Oracle`/`Epoch`, nothing taken from luna):
     complete: headers that *start* within G = 8 cycles after the LBAD word may follow either the old or the new order;
   * bounded progress: an owed header must start within 80 idle cycles (no `source.valid`, no `lrty_pending`), the queue
     must take a header within 24 cycles while a credit is available.
-After the first violation of a session nothing more is judged in that session (no follow-up alarms; the next session
-starts from reset).  The mechanism names of the defects found on the unchanged tree (findings/C39.md) are decided from
+After the first violation of an enable epoch nothing more is judged until the link has been disabled and enabled again
+(no follow-up alarms; disable clears the counters and pointers of the design, so a different mechanism in a later epoch of
+the same session is still reported; the next session starts from a hard reset).  The mechanism names of the defects found on the unchanged tree (findings/C39.md) are decided from
 the observed pattern only: DL of the packet that was on the wire when the LBAD arrived, LBAD word one cycle before the
 end of a packet, acceptance in the cycle after the LBAD word without the transmitter having caught up since, previous epoch closed with
 an open retry.
@@ -94,7 +98,9 @@ ASSUMPTIONS = ["partner acknowledges only headers that were completely transmitt
                "lrty_pending rises in the cycle after retry_required (as HeaderPacketReceiver drives it) and stays 2-60 cycles",
                "a header that starts <= 8 cycles after an LBAD word may still follow the pre-LBAD order",
                "enable is toggled only while the sink is between commands; it is raised again only after the wire has drained",
-               "after the first violation of a session the rest of that session is not judged",
+               "after the first violation of an enable epoch the rest of that epoch is not judged",
+               "buffer_count 2, 4, 8 only (non-powers of two are not generated); LCRD letters run modulo buffer_count",
+               "an LGOOD carrying the next expected number while nothing awaits acknowledgement is not generated (USB 3.2 itself accepts it)",
                "DL of first transmissions, recovery_required, CRC/framing, payload and the credit timer are not judged"]
 
 # K symbols, USB 3.2 table 6-1; byte 0 of a word is the first symbol
